@@ -388,15 +388,45 @@ func TestVFC03Decision(t *testing.T) {
 	vfkit.Begin(t)
 	rapid.Check(t, func(t *rapid.T) {
 		first := vfC03DrawLists(t, "l0")
+		// Without a configured server name only DNS-over-HTTPS can carry a
+		// ClientID (in its path).
+		noName := rapid.IntRange(0, 3).Draw(t, "no_server_name") == 0
 		wc := &vfWorldConf{
 			ProtectionEnabled: true, FilteringEnabled: true, ServerName: vfC03ServerName,
 			Allowed: first.Allowed, Disallowed: first.Disallowed, BlockedHosts: first.BlockedHosts,
+		}
+		if noName {
+			wc.ServerName = ""
+			vfC03.Class("no_server_name")
 		}
 		w, err := vfNewWorld(wc)
 		if err != nil {
 			t.Fatalf("VERIF-INCONCLUSIVE world: %v\n%v", err, first.describe())
 		}
 		defer w.close()
+
+		// The blocked-hosts list is the one the API reports: with none
+		// configured the server puts its defaults there, and they are names
+		// like any other.
+		rec := httptest.NewRecorder()
+		w.srv.handleAccessList(rec, httptest.NewRequest(http.MethodGet, "/control/access/list", nil))
+		var reported struct {
+			BlockedHosts []string `json:"blocked_hosts"`
+		}
+		if jerr := json.Unmarshal(rec.Body.Bytes(), &reported); jerr != nil {
+			t.Fatalf("VERIF-INCONCLUSIVE GET /control/access/list: %v: %s", jerr, rec.Body.String())
+		}
+		for _, h := range reported.BlockedHosts {
+			known := false
+			for _, have := range first.BlockedHosts {
+				known = known || strings.EqualFold(have, h)
+			}
+			if !known {
+				first.BlockedHosts = append(first.BlockedHosts, h)
+				first.hostRules = append(first.hostRules, vfC03HostRule{Kind: "exact", Domain: strings.ToLower(h)})
+				vfC03.Class("default_blocked_host_reported")
+			}
+		}
 
 		// Phases: the lists installed by Prepare, then up to two replacements
 		// through POST /control/access/set while the server keeps serving.
@@ -438,6 +468,9 @@ func TestVFC03Decision(t *testing.T) {
 					r = &cp
 				} else {
 					r = vfC03DrawReq(t, cur, label)
+				}
+				if noName && r.Proto != proxy.ProtoHTTPS {
+					r.ClientID = ""
 				}
 				k := seenKey{addr: r.Addr, id: r.ClientID}
 				if seen[k] && ph > 0 && via == "http_set" {
